@@ -607,6 +607,12 @@ class ChargingNetwork(BaseSimObj):
 
         if attribute_dict["constraint_matrix"] is not None:
             out_obj.constraint_matrix = np.array(attribute_dict["constraint_matrix"])
+            if out_obj.constraint_matrix.size == 0:
+                # A network whose constraints were all removed is dumped as []; keep
+                # one (empty) column per station so the matrix stays 2-dimensional.
+                out_obj.constraint_matrix = out_obj.constraint_matrix.reshape(
+                    (0, len(evses))
+                )
         else:
             out_obj.constraint_matrix = attribute_dict["constraint_matrix"]
         out_obj.magnitudes = np.array(attribute_dict["magnitudes"])
